@@ -461,6 +461,22 @@ def r6_global_substitution(cx):
     sh = [x for x in reps if U(x.args[0]) == "self._hostname"]
     ok = bool(fq) and len(fq[0].args) == 2 and isinstance(enclosing(fq[0], ast.For), ast.For) and not has_exit(enclosing(fq[0], ast.For).body)
     cx.require(ok, fq[0] if fq else fh, "every host name found by the per-domain pattern is replaced everywhere on the line", construct=short(stmt_of(fq[0])) if fq else "(none)")
+    if fq:
+        # the needle of the replacement is the text that was found, as found (a folded / trimmed copy no longer occurs in the line)
+        lp_ = enclosing(fq[0], ast.For)
+
+        def _found_as_is(e, depth=0):
+            e = trace(e, fh) if isinstance(e, ast.Name) else e
+            if isinstance(e, ast.Call) and call_attr(e) in ("findall",) and [U(a) for a in e.args][-1:] == ["line"]:
+                return True
+            if isinstance(e, ast.Call) and call_name(e) in ("list", "set", "sorted", "tuple") and len(e.args) == 1 and not e.keywords and depth < 3:
+                return _found_as_is(e.args[0], depth + 1)
+            if isinstance(e, (ast.ListComp, ast.GeneratorExp, ast.SetComp)) and len(e.generators) == 1 and U(e.elt) == U(e.generators[0].target) and depth < 3:
+                return _found_as_is(e.generators[0].iter, depth + 1)
+            return False
+        ok = lp_ is not None and U(lp_.target) == U(fq[0].args[0]) and not assigns_to(lp_.body, U(lp_.target)) and _found_as_is(lp_.iter)
+        cx.require(ok, lp_ if lp_ is not None else fq[0], "the text replaced is each match exactly as the pattern found it on the line",
+                   construct="for %s in %s" % (U(lp_.target), short(trace(lp_.iter, fh) if isinstance(lp_.iter, ast.Name) else lp_.iter, 80)) if lp_ is not None else "(no loop)")
     ok = False
     if sh:
         st = stmt_of(sh[0])
@@ -492,6 +508,33 @@ def r6_global_substitution(cx):
                construct="for regex in %s" % (U(lp[0].iter) if lp else "?"))
 
 
+def r7_stage_failure_propagates(cx):
+    """A stage that cannot process a line must fail the spec (the provider then stores nothing): a handler that returns instead of raising hands the
+    unprocessed line - with whatever the stage recognised but did not replace - to the archive."""
+    cx.rule("C08.R7", "a stage that fails on a line fails the spec; no handler returns the unprocessed line", floor=3)
+    stages = [("insights.cleaner.keyword", "Keyword"), ("insights.cleaner.password", "Password"), ("insights.cleaner.ip", "IPv4"), ("insights.cleaner.ip", "IPv6"),
+              ("insights.cleaner.hostname", "Hostname"), ("insights.cleaner.mac", "Mac"), ("insights.cleaner.pattern", "Pattern")]
+    from ..model import terminates
+    n = 0
+    for mn, cn in stages:
+        m = cx.repo.module(mn)
+        f = m.func("%s.parse_line" % cn, "C08.R7")
+        for h in [x for x in ast.walk(f) if isinstance(x, ast.ExceptHandler)]:
+            n += 1
+            leaves = [x for x in walk_body(h.body) if isinstance(x, (ast.Return, ast.Continue, ast.Break))]
+            ok = not leaves and bool(h.body) and isinstance(h.body[-1], ast.Raise)
+            cx.require(ok, h, "%s.parse_line: the handler re-raises (the spec fails, nothing unprocessed is stored)" % cn, construct=short(h, 110))
+    if n < 2:
+        cx.error("expected exception handlers in the substitution stages, found %d" % n, "C08.R7")
+    # the obfuscator of host names is keyed on the system's own name: the fqdn handed in, else the name the system reports (no display label)
+    cm = cx.repo.module(CL)
+    init = cm.func("Cleaner.__init__", "C08.R7")
+    fq = [a for a in walk_body(init.body) if isinstance(a, ast.Assign) and U(a.targets[0]) == "self.fqdn"]
+    ok = len(fq) == 1 and U(fq[0].value) in ("fqdn or determine_hostname()", "fqdn if fqdn else determine_hostname()", "determine_hostname() if not fqdn else fqdn")
+    cx.require(ok, fq[0] if fq else init, "the host-name obfuscator is keyed on the given fqdn or on determine_hostname() without a display-name override",
+               construct=short(fq[0], 100) if fq else "(no self.fqdn)")
+
+
 def run(cx):
     repo = cx.repo
     cx.extra["explanation"] = ("C08: who-overrides write()/_clean_content, def-use of the bytes written, constructor-side sweep of every provider construction reachable during host collection, "
@@ -515,3 +558,8 @@ def run(cx):
     except ImportError:
         pass
     cx.guard(r6_global_substitution)
+    cx.guard(r7_stage_failure_propagates)
+    # keyword replacement has to come after the stages whose substitutes could contain a keyword (host names, addresses): the fixed, sorted stage
+    # order is C10.R1, re-checked here as an obligation of this property
+    from . import c10
+    cx.borrow(c10.r1_hash_free, "C10.R1", "C08.R8", "the stages run in one fixed order (sorted names: host name and addresses before keywords; C10.R1 re-checked)")
